@@ -209,6 +209,7 @@ type pktSpec struct {
 	VP8X, VP8L, VP8T, VP8K bool
 	VP8N                   bool
 	VP8PartID              uint8 // only on non-start packets
+	VP8PartStart           bool  // non-start packet that begins a partition other than the first (S=1, PartID != 0)
 	VP9L, VP9F, VP9P, VP9V bool
 	VP9D                   bool
 	VP9NPDiff              int
@@ -260,6 +261,9 @@ func buildPkt(s pktSpec) *srcPkt {
 			b0 |= 0x10 // S=1, PartID=0
 		} else {
 			b0 |= s.VP8PartID & 0x7 // S=0: continuation; any partition index
+			if s.VP8PartStart && s.VP8PartID&0x7 != 0 {
+				b0 |= 0x10 // the start of a later partition is not the start of a frame
+			}
 		}
 		desc = append(desc, b0)
 		if x {
